@@ -26,6 +26,9 @@ type KAScenario struct {
 	K      int      `json:"k"`
 	Steps  []KAStep `json:"steps"`
 	Silent bool     `json:"silent"` // go silent after the steps (else: stay active, then DISCONNECT)
+	// Feed: the client is subscribed to a topic on which another client keeps
+	// publishing, so the broker keeps WRITING to it while it is silent.
+	Feed bool `json:"feed,omitempty"`
 }
 
 type C19Case struct {
@@ -52,6 +55,25 @@ func runC19(c C19Case) (fails []string, incon int, classes []string) {
 	if _, err := W.Barrier(); err != nil {
 		return []string{"witness barrier: " + err.Error()}, 0, nil
 	}
+	// a feeder publishes every 300 ms for as long as the scenarios run
+	stopFeed := make(chan struct{})
+	feedDone := make(chan struct{})
+	F := b.Dial("feeder")
+	if _, err := F.Connect(wire.ConnectPacket("feeder", true, 600)); err != nil {
+		return []string{"feeder connect: " + err.Error()}, 0, nil
+	}
+	go func() {
+		defer close(feedDone)
+		for {
+			select {
+			case <-stopFeed:
+				return
+			case <-time.After(300 * time.Millisecond):
+				F.SendAsync(codec.Encode(&codec.Packet{Type: codec.PUBLISH, Topic: []byte("ka/feed"), Payload: []byte("tick")}))
+			}
+		}
+	}()
+	defer func() { close(stopFeed); <-feedDone }()
 	outs := make([]kaOutcome, len(c.Scenarios))
 	wantWill := make([]int, len(c.Scenarios))
 	var wg sync.WaitGroup
@@ -68,6 +90,11 @@ func runC19(c C19Case) (fails []string, incon int, classes []string) {
 			if _, err := cn.Connect(cp); err != nil {
 				o.fail = fmt.Sprintf("scenario %d: connect: %v", si, err)
 				return
+			}
+			cn.OnPacket = func(p *codec.Packet, off int64) bool { return p.Type == codec.PUBLISH }
+			if sc.Feed {
+				cn.Send(&codec.Packet{Type: codec.SUBSCRIBE, PacketID: 999, Topics: [][]byte{[]byte("ka/feed")}, QoSs: []byte{0}})
+				o.cls = append(o.cls, "receives-deliveries-while-silent-or-active")
 			}
 			last := time.Now()
 			pings, maxGap, timely := 0, time.Duration(0), 0
@@ -203,7 +230,7 @@ func runC19(c C19Case) (fails []string, incon int, classes []string) {
 func genC19(t *rapid.T) C19Case {
 	var c C19Case
 	for i, n := 0, 8; i < n; i++ {
-		sc := KAScenario{K: rapid.SampledFrom([]int{1, 1, 2}).Draw(t, "k"), Silent: rapid.IntRange(0, 2).Draw(t, "silent") > 0}
+		sc := KAScenario{K: rapid.SampledFrom([]int{1, 1, 2}).Draw(t, "k"), Silent: rapid.IntRange(0, 2).Draw(t, "silent") > 0, Feed: rapid.IntRange(0, 2).Draw(t, "feed") == 0}
 		budget := 500 // percent of K spent on gaps at most
 		for j, m := 0, rapid.IntRange(0, 8).Draw(t, "nsteps"); j < m && budget > 0; j++ {
 			st := KAStep{GapPct: rapid.SampledFrom([]int{20, 35, 50, 70, 80, 85}).Draw(t, "gap"), Kind: rapid.SampledFrom([]string{"ping", "ping", "pub0", "pub1", "sub"}).Draw(t, "kind")}
